@@ -134,6 +134,12 @@ class World:
         if name not in self.v: self.v[name] = z3.BitVec(name, w)
         return self.v[name]
 
+    def T(self, name):
+        """an opaque timestamp in the past (not a world variable)"""
+        t = z3.BitVec('time_' + name, 64)
+        self.M.assume(z3.ULE(t, z3.BitVecVal(1000, 64)))
+        return t
+
     def source(self, n):
         return f'{n}!~{n}@{self.spec.hosts.get(n, "127.0.0.1")}'
 
@@ -183,8 +189,8 @@ class World:
                   away=opt_sym(self.away[n], mkstring(sp.away_text)),
                   channels=hset([(c, self.member[(n, c)]) for c in sp.chans]),
                   invited_to=hset([(c, self.invited[(n, c)]) for c in sp.chans]),
-                  last_activity=1000, signon=900,
-                  history_entry=S('NickHistoryEntry', username=mkstring(n), hostname=mkstring(sp.hosts.get(n, '127.0.0.1')), realname=mkstring('Real ' + n), signon=900))
+                  last_activity=self.T('act_' + n), signon=self.T('signon_' + n),
+                  history_entry=S('NickHistoryEntry', username=mkstring(n), hostname=mkstring(sp.hosts.get(n, '127.0.0.1')), realname=mkstring('Real ' + n), signon=self.T('hsignon_' + n)))
             cell = Cell(u); self.user_cells[n] = cell
             users.slots.append([n, self.reg[n], cell])
         M.env['wall_min'] = z3.BitVecVal(1000, 64)
@@ -204,11 +210,11 @@ class World:
                       invite_only=self.flag[(c, 'invite_only')], moderated=self.flag[(c, 'moderated')], secret=self.flag[(c, 'secret')],
                       protected_topic=self.flag[(c, 'protected_topic')], no_external_messages=self.flag[(c, 'no_external_messages')])
             dm = S('ChannelDefaultModes', **{RANK_SETS[r]: hset([(n, self.defmode[(n, c, r)]) for n in sp.nicks]) for r in RANKS})
-            topic = S('ChannelTopic', topic=mkstring(sp.topic_text), nick=mkstring('zz'), set_time=950)
+            topic = S('ChannelTopic', topic=mkstring(sp.topic_text), nick=mkstring('zz'), set_time=self.T('topic_' + c))
             cu = hmap([(n, self.member[(n, c)], S('ChannelUserModes', **{r: self.rank[(n, c, r)] for r in RANKS})) for n in sp.nicks])
             chn = S('Channel', topic=opt_sym(self.hastopic[c], topic), modes=modes, default_modes=dm,
-                    ban_info=hmap([(m, self.ban[(c, m)], S('BanInfo', set_time=940, who=mkstring('zz'))) for m in sp.masks]),
-                    users=cu, creation_time=800, preconfigured=self.preconf[c])
+                    ban_info=hmap([(m, self.ban[(c, m)], S('BanInfo', set_time=self.T('ban_' + c + '_' + m), who=mkstring('zz'))) for m in sp.masks]),
+                    users=cu, creation_time=self.T('created_' + c), preconfigured=self.preconf[c])
             cell = Cell(chn); self.chan_cells[c] = cell
             channels.slots.append([c, self.exists[c], cell])
         # counters -----------------------------------------------------------------------------------
